@@ -536,6 +536,7 @@ struct GenState {
     /// profile "local": keys are drawn around a slowly moving cursor, so that memtables (and the
     /// level-0 files they become) cover narrow, staircase-like overlapping key ranges
     cursor: i64,
+    dir: i64,
     next_vid: i64,
     nsnaps: usize,
     niters: usize,
@@ -564,10 +565,19 @@ fn gen_value(rng: &mut StdRng, g: &mut GenState, cfg: &HistCfg, memtable: usize)
 fn gen_key(rng: &mut StdRng, g: &mut GenState, cfg: &HistCfg) -> i64 {
     let n = cfg.nkeys as i64;
     if cfg.profile == "local" && rng.gen_bool(0.9) {
+        if g.cursor == 0 {
+            // first use: start anywhere, drift up or down (a descending staircase leaves the
+            // OLDER files at the higher keys)
+            g.cursor = rng.gen_range(1..=n);
+            g.dir = if rng.gen_bool(0.5) { 1 } else { -1 };
+        }
         if rng.gen_bool(0.25) {
-            g.cursor += 1;
+            g.cursor += g.dir;
             if g.cursor > n {
                 g.cursor = 1;
+            }
+            if g.cursor < 1 {
+                g.cursor = n;
             }
         }
         return (g.cursor + rng.gen_range(-1..=1)).clamp(1, n);
@@ -779,7 +789,8 @@ pub fn run_hist(
     };
     let mut ops_done: Vec<Op> = vec![];
     let mut g = GenState {
-        cursor: 1,
+        cursor: 0,
+        dir: 1,
         next_vid: 1,
         nsnaps: 0,
         niters: 0,
